@@ -175,7 +175,12 @@ def run(prog: Program, chk: Check):
             if n.id not in r:
                 L.ok(fkey(f, c), where(f, c), "send only reachable for a ready connection")
                 continue
-            unwaited = flow.must_precede(gg, is_wait, [n], follow=not_ready_edge)
+            # path facts over the graph without the edges leaving a blocking select: every way of reaching the send that did
+            # not wait must have readiness established (also through a flag: `deliver = ...` / `if deliver:`)
+            wait_ids = {m.id for m in gg.nodes if is_wait(m)}
+            gnw = flow.guard_states(gg, edge_filter=lambda e, wait_ids=wait_ids: e.src not in wait_ids)
+            pnw = [[(guards.subst(e_, lcm), pol_) for e_, pol_ in p] for p in gnw.at(n)]
+            unwaited = [p for p in pnw if guards.satisfiable(p) and not guards.implies(p, ready)]
             L.decide(not unwaited, fkey(f, c), where(f, c), "not-ready path passes select.select([], [conn], [], None) before the send",
                      f"`{norm(c)}` reachable for a not-ready connection without a blocking select on it")
             if f is fm:
